@@ -129,6 +129,7 @@ class Ctx:
         self.loop_specs = {}
         self.cache_known = {}
         self.axioms = []
+        self.soft = set()
         self.named_mark = len(S.NAMED_SUMS)   # finite sums named (as divisors) on this path come after this
 
     # ---- fresh symbols --------------------------------------------------------------
@@ -160,7 +161,9 @@ class Ctx:
             self._solver.set('timeout', SOLVER_TIMEOUT_MS)
             self._solver_len = 0
         while self._solver_len < len(self.pc):
-            self._solver.add(self.pc[self._solver_len])
+            p_ = self.pc[self._solver_len]
+            if p_.get_id() not in self.soft:       # nonlinear side facts (sqrt) stay out of feasibility queries
+                self._solver.add(p_)
             self._solver_len += 1
         return self._solver
 
@@ -193,10 +196,12 @@ class Ctx:
         self.cache_known[key] = (res, cond)     # keep the term alive: z3 reuses ids of freed terms
         return res
 
-    def assume(self, cond, why=None, axiom=False):
+    def assume(self, cond, why=None, axiom=False, soft=False):
         """axiom=True: a (typically quantified) fact that is handed to the prover with every obligation
         but kept out of the path-feasibility queries of the explorer (sound: the explorer then
-        considers at least the feasible paths)."""
+        considers at least the feasible paths).  soft=True: the same, but the fact keeps its chronological
+        place in the path condition of the obligations (used for the nonlinear sqrt facts: the solver's
+        behaviour on the nonlinear obligations is sensitive to the order of the assertions)."""
         if why:
             self.assumptions.add(why)
         if isinstance(cond, bool):
@@ -206,6 +211,8 @@ class Ctx:
         if axiom:
             self.axioms.append(cond)
             return
+        if soft:
+            self.soft.add(cond.get_id())       # cond itself is held by self.pc: the id cannot be reused
         self.pc.append(cond)
 
     def branch(self, cond):
